@@ -69,12 +69,13 @@ def register(reg):
 
 def register_scalar(reg):
   # ---------------------------------------------------------------- recorded value = transform(last assigned value)
-  c = reg.contract(M, 'MeasuredValue.set', props=['C06'])
+  c = reg.contract(M, 'MeasuredValue.set', props=['C06', 'C10'])
   c.param('value', 'val')
   recorded = '(self.transform_fn(value) if self.transform_fn is not None else value)'
   fails = "(self.transform_fn is not None and raises_on(self.transform_fn, value))"
   c.ensures('recorded_value_is_the_transform_of_the_assigned_value', 'same(self.stored_value, %s)' % recorded)
   c.ensures('value_is_set', 'self.is_value_set')
+  c.ensures('cached_rendering_is_that_of_the_recorded_post_transform_value', 'same(self._cached_value, data.convert_to_base_types(self.stored_value))')
   c.ensures('transform_did_not_fail', 'not %s' % fails)
   c.raises('Exception', when=fails, ensures=[('nothing_recorded', 'same(self.stored_value, old(self.stored_value)) and self.is_value_set == old(self.is_value_set)')])
   c.modifies('self.stored_value', 'self._cached_value', 'self.is_value_set')
